@@ -983,6 +983,14 @@ def ones_like(x, *, dtype=None, device=None):
     return _full(x.shape, 1.0, dtype or x.dt)
 
 
+def full_like(x, /, fill_value, *, dtype=None, device=None):
+    return _full(x.shape, fill_value, dtype or x.dt)
+
+
+def empty_like(x, /, *, dtype=None, device=None):
+    return _full(x.shape, 0.0, dtype or x.dt)
+
+
 def empty(shape, *, dtype=None, device=None):
     return _full(shape, 0.0, dtype)
 
@@ -1097,6 +1105,38 @@ def expm1(x, /):
 
 def sqrt(x, /):
     return _un(x, lambda c: OPS.sqrt(c))
+
+
+def tanh(x, /):
+    e2 = exp(2 * asarray(x))
+    return (e2 - 1) / (e2 + 1)
+
+
+def logaddexp(a, b, /):
+    a, b = asarray(a), _coerce(b)
+    m = maximum(a, b)
+    return m + log(exp(a - m) + exp(b - m))
+
+
+def cumulative_sum(x, /, *, axis=None, dtype=None, include_initial=False):
+    x = asarray(x)
+    if x.ndim != 1 and axis is None:
+        raise HarnessError("cumulative_sum needs an axis")
+    cells = _fcells(x).ravel().tolist() if x.ndim == 1 else None
+    if cells is None:
+        raise HarnessError("cumulative_sum on n-d arrays is not modelled")
+    out, acc = [], None
+    for c in cells:
+        acc = c if acc is None else OPS.add(acc, c)
+        out.append(acc)
+    a = _obj((len(out),))
+    for i, c in enumerate(out):
+        a[i] = c
+    return Array(a, _fdt(x))
+
+
+def count_nonzero(x, /, *, axis=None, keepdims=False):
+    return sum(astype(asarray(x), bool), axis=axis, keepdims=keepdims)
 
 
 def square(x, /):
